@@ -8,7 +8,7 @@ use crate::sim::{finish_result, Hist, HistResult, Last, Params};
 use crate::subject::{Ctor, How, Kind};
 use crate::world::{KState, SrcStep, UpStep};
 
-pub const SCENARIOS: [&str; 6] = ["starve", "budget", "quiet_stale", "oscillate", "head_of_line", "wrap"];
+pub const SCENARIOS: [&str; 7] = ["starve", "budget", "quiet_stale", "quiet_budget", "oscillate", "head_of_line", "wrap"];
 
 fn mix(a: u64, b: u64) -> u64 {
     let mut x = a ^ b.wrapping_mul(0x9E37_79B9_7F4A_7C15);
@@ -26,6 +26,7 @@ pub fn run_scenario(p: &Params, name: &str, idx: u64) -> HistResult {
         "starve" => starve(p, seed),
         "budget" => budget(p, seed),
         "quiet_stale" => quiet_stale(p, seed),
+        "quiet_budget" => quiet_budget(p, seed),
         "oscillate" => oscillate(p, seed),
         "head_of_line" => head_of_line(p, seed),
         "wrap" => wrap(p, seed),
@@ -441,6 +442,74 @@ fn quiet_stale(p: &Params, seed: u64) -> HistResult {
     h.op_quiet();
     if h.flags.quiet_phases == before && !w.has_violation() {
         h.aborted = Some("quiet window could not be entered".into());
+    }
+    if !w.has_violation() && h.aborted.is_none() {
+        h.drain();
+    }
+    if !w.has_violation() {
+        h.finish(false, true);
+    }
+    finish_result(h)
+}
+
+// ---------------------------------------------------------------------- quiet_budget (C14, C12, C01)
+
+/// More children woken than one poll's budget, one poll, then a *redundant* wake of a child that is
+/// still queued, then nobody wakes anything any more: the collection must fall silent.
+fn quiet_budget(p: &Params, seed: u64) -> HistResult {
+    let mut h = Hist::new(seed, p.trace);
+    let w = h.w.clone();
+    let kind = p.kind.unwrap_or_else(|| *h.rng.pick(&[Kind::Fub, Kind::Fub, Kind::Fob, Kind::Fu, Kind::Fo, Kind::MergeB]));
+    let n = if p.small { h.rng.range(62, 66) } else { *h.rng.pick(&[62usize, 62, 63, 64, 100, 123, 124, 130, 200]) };
+    match kind {
+        Kind::MergeB => {
+            let ids: Vec<u32> = (0..n).map(|_| h.src_with(vec![SrcStep::Gap, SrcStep::Gap, SrcStep::Gap, SrcStep::End])).collect();
+            construct_with_ids(&mut h, kind, &ids);
+        }
+        Kind::Fu | Kind::Fo => {
+            h.construct(kind, Ctor::WithCap, n, 0, None);
+        }
+        _ => {
+            h.construct(kind, Ctor::New, n, 0, None);
+        }
+    }
+    if kind.is_collection() {
+        for _ in 0..n {
+            let id = h.passive_fut();
+            h.push_id(id, How::Back);
+        }
+    }
+    h.poll_until_all_polled(n / 30 + 8);
+    h.poll_until_pending(4);
+    let ids = h.held.clone();
+    let rounds = h.rng.range(1, 3);
+    for _ in 0..rounds {
+        if w.has_violation() || h.subj.is_none() {
+            break;
+        }
+        // wake everybody, in a known order
+        for id in &ids {
+            h.op_wake(*id, 0, 0);
+        }
+        // one poll: the budget runs out with entries still queued
+        let wk = h.last_waker;
+        h.poll(wk);
+        // redundant wake of a child that is (most likely) still queued: positions around the budget
+        let j = match h.rng.below(6) {
+            0..=2 => 61,
+            3 => 60,
+            4 => 62,
+            _ => h.rng.below(n),
+        };
+        if let Some(id) = ids.get(j.min(n - 1)) {
+            h.op_wake(*id, 0, 0);
+        }
+        let before = h.flags.quiet_phases;
+        h.op_quiet();
+        if h.flags.quiet_phases == before && !w.has_violation() {
+            h.aborted = Some("quiet window could not be entered".into());
+            break;
+        }
     }
     if !w.has_violation() && h.aborted.is_none() {
         h.drain();
